@@ -518,7 +518,10 @@ func c17run(bin, raceLog string, gmp, par int, pkg string, calls []c17call, reg 
 		return nil, "", err
 	}
 	defer ch.Quit()
-	gs, err := serveGo(ch, []string{pkg + ".AlphaService", pkg + ".BetaService"}, "none", false)
+	// AlphaService is registered first WITH an error hook that only adds a response header (status and body
+	// stay the default ones), BetaService after it WITHOUT options: what one registration was given is that
+	// registration's alone, so no answer of a Beta route may carry the header
+	gs, err := serveGoHooks(ch, []string{pkg + ".AlphaService", pkg + ".BetaService"}, []string{"headers", "none"})
 	if err != nil {
 		return nil, "", err
 	}
@@ -581,6 +584,9 @@ func c17run(bin, raceLog string, gmp, par int, pkg string, calls []c17call, reg 
 		case rm["status"] != nil:
 			st := int(rm["status"].(float64))
 			o.Class = fmt.Sprintf("st%d", st)
+			if hh := oas.S(rm["hook_header"]); hh != "" {
+				o.Seen = "X-Hook=" + hh
+			}
 			if st == 200 {
 				m := dynamicpb.NewMessage(respMD)
 				if err := protojson.Unmarshal(unb64(fmt.Sprint(rm["body"])), m); err != nil {
@@ -704,6 +710,12 @@ func c17check(c *Ctx, caseID string, calls []c17call, burst, seq []c17outcome, p
 		}
 		if b.String() != seq[i].String() {
 			c.R.Violate(caseID, "differs-from-isolated-execution", "", rp(i, nil))
+		}
+		// the error hook belongs to AlphaService's registration: a rejected raw request on a Beta route must not show it
+		if cl.Svc == "BetaService" && strings.HasPrefix(b.Seen, "X-Hook=") {
+			c.R.Violate(caseID, "error-hook-of-another-registration-applied", "", rp(i, nil))
+		} else if cl.Svc == "BetaService" && cl.Raw != nil && cl.Want != "ok" {
+			c.R.Count("beta_rejections_checked_for_foreign_hook", 1)
 		}
 		// what was observed, per (schedule configuration, route, request kind)
 		c.R.Decided(caseID + "/" + cl.RPC + "/" + cl.Kind)
